@@ -1,7 +1,7 @@
 \* Apq over a FULL, evicting LRU + export of the labelled state graph (thorough tier).
 \* Texts {q1..q5} all valid, WrongHashes {x:rand}, LRU capacity 1..3 (always fewer
 \* than texts), no malformed / wrong-version forms; histories of any length.
-\* Measured: see notes/C15.md.
+\* Measured: 118 distinct states, 6375 generated = 3 initial + 6372 edges, ~2.5 s.
 SPECIFICATION Spec
 CONSTANTS
   Texts <- FTexts
